@@ -146,6 +146,17 @@ def check_case(ctx, out, desc, fn, keep_ids, arg):
     if len(set(ids_res)) != len(ids_res) or [i for i in orig if i in set(ids_res)] != ids_res:
         out.spec_fail(dict(canon, symptom='order_or_duplicate'), f'{fn} reordered or duplicated branches', gen_net.pretty(desc), desc=desc, fn=fn, keep_ids=keep_ids, arg=arg)
         return
+    # contraction is complete: no short circuit that is not exempted (nor, for the source-stripping operations, an ideal
+    # voltage source) is left between two DIFFERENT nodes of the result — leftovers in parallel make the result singular
+    if fn in ('remove_short_circuit_elements', 'remove_ideal_voltage_sources', 'passive_network'):
+        from CircuitCalculator.Network import elements as elm_
+        left = [b.id for b in res.branches if b.id not in keep_ids and b.node1 != b.node2 and elm_.is_short_circuit(b.element)]
+        out.count('contraction_checked')
+        if left:
+            out.spec_fail(dict(canon, symptom='short_left_behind', parallel_leftovers=len(left) > 1),
+                          f'{fn} left non-exempt short circuit(s) {left} in the result', gen_net.pretty(desc),
+                          impl=dict(result=str(net_struct(res))), desc=desc, fn=fn, keep_ids=keep_ids, arg=arg)
+            return
     structural_only = fn in ('remove_element', 'short_circuitify_voltage_sources', 'open_circuitify_current_sources',
                              'remove_ideal_current_sources', 'remove_ideal_voltage_sources', 'passive_network')
     if fn == 'remove_element':
